@@ -81,6 +81,13 @@ def capacity_cases(r, tier):
     for n in [10, 19, 20, 21, 30]:
         out.append((f"s='ab'; i=0; while i<{n} {{ i=i+1; s=s+s }}; s.len()", "-", str(2 ** (n + 1)), "string-length/concat"))
         out.append((f"s='ab'; i=0; while i<{n} {{ i=i+1; s=`{{s}}{{s}}` }}; s.len()", "-", str(2 ** (n + 1)), "string-length/template"))
+    # the text form of a container is a string value too: toStr / repr of k strings of 2^18 bytes
+    for k in [1, 2, 3, 4, 5, 9, 300]:
+        ln = 2 ** 18
+        full = 2 + k * (ln + 2) + 2 * (k - 1)
+        out.append((f"s='ab'; i=0; while i<17 {{ i=i+1; s=s+s }}; toStr([s]*{k}).len()", "-", str(full), "string-length/toStr"))
+        out.append((f"s='ab'; i=0; while i<17 {{ i=i+1; s=s+s }}; repr([s]*{k}).len()", "-", str(full), "string-length/repr"))
+        out.append((f"s='ab'; i=0; while i<17 {{ i=i+1; s=s+s }}; t=toStr([s]*3); u=repr([t]*{k}); u.len()", "-", str(2 ** 21), "string-length/toStr-fed-back"))
     return out
 
 
